@@ -170,11 +170,17 @@ def run(prog, tier) -> Result:
         cr.run("R14.4", Q(name), f"{name} [noref]", two_qty_same_type("noref"), judge_addsub(sg, "noref"),
                site=f"Quantity.{name}")
 
-    # loop shape: most recent first, first non-None wins (R12.3 shares this)
-    def judge_order(o):
-        for e in o.state.effects:
-            pass
+    # a converter's result is used whatever its value (a result of exactly 0 is a result)
+    def judge_first_result(o):
+        st = o.state
+        got_amount = any(t == "conv(self)=amount" for t in o.trace)
+        if got_amount:
+            if o.kind != "return" or not isinstance(o.value, Num) or not conv_atoms(st.norm(o.value.rf)):
+                return ("a converter's result is discarded", f"{o.brief()}: the amount returned by the converter must "
+                        f"be used even if it is zero")
         return None
+    cr.run("R14.4", ea, "converter result is used whatever its value", qty_and_unit_same_type("noref"),
+           judge_first_result, min_paths=3)
 
     # R14.3 temperature rows
     cat = Catalogue(prog)
